@@ -19,22 +19,27 @@ def sh(cmd, **kw):
 
 
 def run_checks(patch, prop):
-    assert sh('git -C /repo status --porcelain').stdout.strip() == '', '/repo not clean'
+    """on a scratch copy of /repo's working tree (src + docs/src/lvs) with the patch applied - the same thing as applying it to /repo and undoing it,
+    but safe while other jobs read /repo"""
     det = {}
-    assert sh(f'git -C /repo apply {patch}').returncode == 0
+    t = tempfile.mkdtemp(prefix='refchk-')
     try:
+        shutil.copytree('/repo/src', os.path.join(t, 'src'), ignore=shutil.ignore_patterns('__pycache__', '*.pyc', '*.egg-info'))
+        shutil.copytree('/repo/docs/src/lvs', os.path.join(t, 'docs', 'src', 'lvs'))
+        assert sh(f'git apply {patch}', cwd=t).returncode == 0
         man = json.load(open(os.path.join(VERIF, 'MANIFEST.json')))
         props = [c['property_id'] for c in man['checks']]
-        evd = tempfile.mkdtemp(prefix='refev-')
-        for p in props:
-            r = sh(f'cd {VERIF} && VERIF_EVIDENCE_DIR={evd} ./check {p}')
-            if r.returncode != 0:
-                lines = [l.strip() for l in r.stdout.splitlines() if l.startswith('  C') and '[' in l.split(' inst')[0]]
-                det[p] = {'rc': r.returncode, 'reports': [l[:300] for l in lines][:4] + [l[:300] for l in r.stdout.splitlines() if l.startswith('ANALYSIS-ERROR')][:1]}
-        shutil.rmtree(evd, ignore_errors=True)
+
+        def one(p):
+            return p, sh(f'cd {VERIF} && VERIF_EVIDENCE_DIR={t}/ev-{p} ./check {p} --repo {t}')
+        import concurrent.futures as cf
+        with cf.ThreadPoolExecutor(max_workers=10) as ex:
+            for p, r in ex.map(one, props):
+                if r.returncode != 0:
+                    lines = [l.strip() for l in r.stdout.splitlines() if l.startswith('  C') and '[' in l.split(' inst')[0]]
+                    det[p] = {'rc': r.returncode, 'reports': [l[:300] for l in lines][:4] + [l[:300] for l in r.stdout.splitlines() if l.startswith('ANALYSIS-ERROR')][:1]}
     finally:
-        sh('git -C /repo checkout -- .')
-        sh('git -C /repo clean -fdq src')
+        shutil.rmtree(t, ignore_errors=True)
     return det
 
 
